@@ -22,6 +22,7 @@ let parse_op (keys : n list array) (s : string) : cop =
       let rec cut l = match l with [] -> [] | x :: r -> (match x with N0 -> [] | _ -> x :: cut r) in
       ORemove (cut (key 1))
     else ORemove (key 1)
+  | "Q" -> OReset   (* h = an empty table, by copy or by move: the table is detached and empty *)
   | "W" -> OReserve (nat_of_int (num 1))   (* h = Table(n): Reserve(n) of a table resets it and allocates for n *)
   | "X" -> ORemoveIndex (nat_of_int (num 1))
   | "Y" -> ORemoveAt (key 1)
